@@ -9,7 +9,7 @@ use flsrc::uci::Flounder;
 use serde_json::{json, Value};
 use std::cell::RefCell;
 
-pub const RULE: &str = "wtime/btime/winc/binc over 0..86_400_000 ms from a boundary-rich mixture (0,1,49,50,4999,5000,5001,5025,60000, hours; increments 0,1,<remaining,=remaining,>remaining), all 24 orders of the four name-value pairs and the two-pair form in both orders, either side to move, in whatever position the engine holds (a generated valid position of 2..32 men, changed every dozen cases by a position command). The budget B is what the REAL go parser hands to the search (hook verif_go_budget; nothing duplicated). Oracle: (1) independence — B unchanged when the opponent's time/inc are replaced and under every permutation of the pairs; (2) fit — B <= own time, B < own time when own time > 0, a missing limit counts as exceeding. Non-trivial = own != opp in time or inc and own time > 0; distinct by (five-tuple, order). Part 'effective': sequences of 2..7 REAL searches 'go depth 1 <clocks>' on one engine (positions change in between, mates and stalemates included; clocks biased to short ones, 0..16 ms included); after each search the limit the search timer was started with is read back (SearchTimer::time_limit): it must fit in the mover's clock in the same way, and a twin engine given the same sequence with other clocks for the opponent must have run with the same effective budgets. Non-trivial there = a search that follows an earlier one on the same engine with time on the clock.";
+pub const RULE: &str = "wtime/btime/winc/binc over 0..86_400_000 ms from a boundary-rich mixture (0,1,49,50,4999,5000,5001,5025,60000, hours; increments 0,1,<remaining,=remaining,>remaining), all 24 orders of the four name-value pairs and the two-pair form in both orders, either side to move, in whatever position the engine holds (a generated valid position of 2..32 men, changed every dozen cases by a position command). The budget B is what the REAL go parser hands to the search (hook verif_go_budget; nothing duplicated). Oracle: (1) independence — B unchanged when the opponent's time/inc are replaced and under every permutation of the pairs; (2) fit — B <= own time, B < own time when own time > 0, a missing limit counts as exceeding. Non-trivial = own != opp in time or inc and own time > 0; distinct by (five-tuple, order). Part 'effective': sequences of 2..7 REAL searches 'go depth 1 <clocks>' (a quarter: depth 3..5; now and then a 'go depth 1 movetime N' in between, not judged itself) on one engine (positions change in between, mates and stalemates included; clocks biased to short ones, 0..16 ms included); after each search the limit the search timer was started with is read back (SearchTimer::time_limit): it must fit in the mover's clock in the same way, and a twin engine given the same sequence with other clocks for the opponent must have run with the same effective budgets. Non-trivial there = a search that follows an earlier one on the same engine with time on the clock.";
 
 
 fn time_value(s: &mut Src) -> u64 {
@@ -244,11 +244,23 @@ fn check_effective(bytes: &[u8], stats: &mut Stats) -> Verdict {
         let order = PERMS[s.below(24)];
         // one command in ten ends with the standard 'movestogo n' a GUI sends with the clocks
         let tail = if s.chance(10) { format!(" movestogo {}", 1 + s.below(60)) } else { String::new() };
+        // mostly depth 1; a quarter of the searches go three to five plies deep (small positions:
+        // they still end long before any budget) — what a search does to its own limit while it
+        // runs (extensions on a falling score ...) needs a few iterations to happen
+        let sd = if s.chance(25) { 3 + s.below(3) } else { 1 };
         let mk = |ot: u64, oi: u64| {
             let (wt, bt, wi, bi) = if white { (own_t, ot, own_i, oi) } else { (ot, own_t, oi, own_i) };
             let vals = [("wtime", wt), ("btime", bt), ("winc", wi), ("binc", bi)];
-            format!("go depth 1{}{}", &cmd_for(&order, &vals)[2..], tail)
+            format!("go depth {}{}{}", sd, &cmd_for(&order, &vals)[2..], tail)
         };
+        // now and then a search under a MOVE TIME goes before (not judged itself: a move time has no
+        // clock to fit in): whatever it leaves behind in the go handler must not reach the next clock go
+        if s.chance(15) {
+            let mt = format!("go depth 1 movetime {}", *s.pick(&[40u64, 3_000, 60_000]));
+            steps.push(Step { position: position.clone(), white, go: mt.clone(), go_twin: mt, own_t: u64::MAX });
+            steps.push(Step { position: None, white, go: mk(opp_t, opp_i), go_twin: mk(opp_t2, opp_i2), own_t });
+            continue;
+        }
         steps.push(Step { position, white, go: mk(opp_t, opp_i), go_twin: mk(opp_t2, opp_i2), own_t });
     }
     let script: Vec<Value> = steps.iter().flat_map(|st| st.position.iter().map(|p| json!(p)).chain(std::iter::once(json!({"go": st.go, "twin_go": st.go_twin})))).collect();
@@ -288,6 +300,10 @@ fn check_effective(bytes: &[u8], stats: &mut Stats) -> Verdict {
     };
     stats.evals(steps.len() as u64);
     for (i, (st, eff)) in steps.iter().zip(a.iter()).enumerate() {
+        if st.own_t == u64::MAX {
+            stats.class("effective_sequences_with_a_move_time_search_in_between");
+            continue;
+        }
         let d = |ms: Option<u64>| json!({"script": script, "step": i, "command": st.go, "side_to_move": if st.white { "white" } else { "black" }, "own_time": st.own_t, "effective_budget_ms": ms});
         let Some(eff) = eff else {
             return Err(Failure::new("search-ran-without-a-limit", d(None)));
@@ -409,7 +425,15 @@ fn replay_effective(case: &Value, stats: &mut Stats) -> Option<Verdict> {
         let twin = item.get("twin_go").and_then(|x| x.as_str()).unwrap_or(&go).to_string();
         let own_key = if white { "wtime" } else { "btime" };
         let toks: Vec<&str> = go.split_whitespace().collect();
-        let own_t: u64 = toks.iter().position(|t| *t == own_key).and_then(|i| toks.get(i + 1)).and_then(|x| x.parse().ok())?;
+        let own_t: Option<u64> = toks.iter().position(|t| *t == own_key).and_then(|i| toks.get(i + 1)).and_then(|x| x.parse().ok());
+        let Some(own_t) = own_t else {
+            // a move-time step: run, not judged
+            for (k, fl) in engines.iter_mut().enumerate() {
+                let _ = std::panic::catch_unwind(std::panic::AssertUnwindSafe(|| fl.verif_handle_command(if k == 0 { &go } else { &twin })));
+            }
+            step += 1;
+            continue;
+        };
         let mut effs = Vec::new();
         for (k, fl) in engines.iter_mut().enumerate() {
             let r = std::panic::catch_unwind(std::panic::AssertUnwindSafe(|| {
